@@ -80,7 +80,7 @@ def selftest(ctx, trace):
     raise ToolError("self-test: no recorded run contains an expiry, a reply and a counted reply")
 
 
-S5_IMPL = ("Begin", "Lookup", "InsertPipeEntry", "AssocAddPeer", "AssocOpen", "AssocOpenErr", "NewConnOk", "NewConnErr",
+S5_IMPL = ("Begin", "Lookup", "InsertPipeEntry", "AssocAddPeer", "AssocOpenStart", "AssocOpenDone", "AssocOpenErr", "NewConnOk", "NewConnErr",
            "RegisterOutgoing", "S5Lookup", "SendOk", "SendErr", "MetricOut", "Return", "ReadReply", "MetricIn",
            "RegisterIncoming", "DnsDone", "DnsPeerClosed", "DnsAssocRelease", "AssocError", "ReadClose", "Tick", "Expire",
            "ExpirePeerClosed", "ExpireAssocRelease", "TickEnd")
@@ -88,14 +88,17 @@ S5_ENV = ("EnvDgram", "EnvReply", "EnvRelay", "EnvRefuse", "IcmpLands", "IcmpLan
 S5_WITNESS = ("WExpireLeavesSiblings", "WExpireLeavesOneSibling", "WExpireLastReleases", "WDnsLeavesSiblings",
               "WDnsLeavesOneSibling", "WDnsLastReleases", "WSiblingUsedAfterClose", "WTwoAssociations",
               "WErrorClosesSeveral", "WRefusedThenOk", "WReplyAfterFlowEnded")
+# flows {1,3} of one source with the SOCKS5 server allowed to hold its UDP ASSOCIATE reply: the tick cancels the handshake
+S5_HOLD = ("MCUdpMuxSocks.hold.cfg", ("AssocOpenStart", "AssocOpenDone", "OpenCancelled", "NewConnCancelled", "EnvHold",
+                                      "WCancelledThenFresh", "InsertPipeEntry", "Tick", "Expire", "DnsDone"))
 S5_MC = {
-    False: [("MCUdpMuxSocks.quick.cfg", S5_IMPL + S5_ENV + S5_WITNESS)],
-    True: [("MCUdpMuxSocks.thorough.cfg", S5_IMPL + S5_ENV + S5_WITNESS),
+    False: [("MCUdpMuxSocks.quick.cfg", S5_IMPL + S5_ENV + S5_WITNESS), S5_HOLD],
+    True: [("MCUdpMuxSocks.thorough.cfg", S5_IMPL + S5_ENV + S5_WITNESS), S5_HOLD,
            # one flow per client source, six operations: an association error while the other source's lives
            ("MCUdpMuxSocks.thorough2.cfg", tuple(a for a in S5_IMPL if a not in ("AssocAddPeer", "DnsDone", "DnsPeerClosed", "DnsAssocRelease"))
             + S5_ENV + ("WErrorOtherSourceLives", "WTwoAssociations", "WExpireLastReleases", "WRefusedThenOk"))],
 }
-S5_MUST_SEE = ("assoc_open", "assoc_refused", "assoc_add_peer", "peer_closed_sibling_left", "assoc_release", "assoc_error",
+S5_MUST_SEE = ("handshake_cancelled_by_tick", "assoc_open", "assoc_refused", "assoc_add_peer", "peer_closed_sibling_left", "assoc_release", "assoc_error",
                "s5_send_err", "expired_flows", "dns_done", "client_got", "client_dropped", "peer_got", "metric_out", "metric_in")
 
 
@@ -135,6 +138,13 @@ def socks_jobs(ctx):
         ctx.spec_must_hold(mc)
         states += mc["distinct"]
         trans += mc["states"]
+    # the code AS IT WAS (pipe-table entry made before the awaited on_new_udp_connection) must violate the
+    # invariants as soon as the handshake can be held across a tick: the split creation step is not vacuous
+    bad = ctx.tlc("MCUdpMuxSocks", "MCUdpMuxSocks.asitwas.cfg", workers=4, timeout=600, coverage=False)
+    if not (bad["error"] or "").startswith("Error: Invariant Inv is violated"):
+        raise ToolError("MCUdpMuxSocks.asitwas.cfg (entry inserted before the await) was expected to violate Inv, got: %s (see %s)"
+                        % (bad["error"], bad["out"]))
+    ctx.tlc_runs[-1]["expected_violation"] = True
     before = len(ctx.violations)
     gen = ctx.tlc("MCUdpMuxSocksGen", "MCUdpMuxSocksGen.cfg", workers=1, simulate=900 if ctx.thorough else 250, depth=150,
                   timeout=1200, coverage=False)
@@ -165,6 +175,8 @@ def socks_jobs(ctx):
         "tlc_generated_schedules": r["counters"].get("tlc_schedules", 0), "random_schedules": nrand,
         "evaluations": r["evaluations"], "distinct_nontrivial": r["distinct_nontrivial"],
         "runs_where_exchange_returned_early": r["counters"].get("runs_where_exchange_returned_early", 0),
+        "directed_schedules": 3,
+        "must_violate_model": "MCUdpMuxSocks.asitwas.cfg: Inv violated as expected (entry left behind by a cancelled handshake)",
         "observed": {k: r["counters"].get(k, 0) for k in S5_MUST_SEE + ("socks5_replies_read_late", "ops_skipped_not_enabled")},
     }
 
@@ -232,7 +244,7 @@ def run(ctx):
     }
     return ctx.finish("model_checking", cov, assumptions=[
         "bounded model: 3 flows per exhaustive configuration (two configurations), T = 4 ticks, <= 4 (quick) / 5 (thorough) environment operations, horizon 6 ticks, <= 2 queued datagrams",
-        "time does not advance while the left pipe is parked in the first send on a fresh socket (one reactor turn); a tick cancelling that send is not explored",
+        "time does not advance while the left pipe is parked in the first send on a fresh socket (one reactor turn); a tick cancelling that send (the datagram is lost, the tables stay consistent) is not explored. The awaited on_new_udp_connection of the SOCKS5 upstream IS explored: the in-process server holds its reply across expiry ticks (Hold/Release)",
         "the downstream sink of the harness never blocks (it answers Sent, or Dropped while the client is stalled); the downstream source is cancel-safe",
         "byte counters are observed at the pipe's update_metrics callback (the closure Tunnel passes); the mapping of that callback to the Prometheus series is C16's",
         "an ICMP port-unreachable is modelled as a pending socket error that the next send or the next read of that socket meets (Linux semantics on loopback)",
